@@ -97,3 +97,26 @@ Theorem C05_F8_refuted :
   = [(1681, 3); (7779, 3)].
 Proof. exact F8_second_eom_from_stale_history. Qed.
 Print Assumptions C05_F8_refuted.
+
+(** * The assembler inside the receiver: the history theorems apply to the whole discrete receiver *)
+From Sameold Require Import Model.Framer Model.Squelch Model.Receiver Proofs.ClockP.
+
+(** for EVERY item stream (= all audio, whatever the DSP makes of it) the receiver's assembler state is
+    exactly the assembler run over the calls the receiver made ... *)
+Theorem C05_receiver_assembler_is_the_history_run : forall c src k,
+  r_asm (snd (run_core c k src)) = snd (asm_run (r_asm k) (asm_calls c k src)).
+Proof. exact receiver_assembler_refines. Qed.
+Print Assumptions C05_receiver_assembler_is_the_history_run.
+
+(** ... and the clock of those calls (the squelch's symbol counter) never runs backwards *)
+Theorem C05_receiver_clock_never_runs_backwards : forall c src k,
+  mono (sq_symcount (r_sq k)) (asm_calls c k src).
+Proof. exact receiver_clock_is_monotone. Qed.
+Print Assumptions C05_receiver_clock_never_runs_backwards.
+
+(** hence, for all audio: two consecutive reports of the receiver's assembler with equal text are at
+    least MAX_HISTORY_DURATION symbols apart *)
+Theorem C05_receiver_no_double_report_in_window : forall c src,
+  spaced None (ok_reports (fst (asm_run asm_init (asm_calls c core_init src)))).
+Proof. exact receiver_no_double_report. Qed.
+Print Assumptions C05_receiver_no_double_report_in_window.
